@@ -418,10 +418,35 @@ class Gen:
             self.defined.setdefault(svs_key(t[2]), total)
         return (outs, named, e)
 
+    def chain(self, n):
+        """a quantified ingredient, a named definition built on a whole reference to it, and a use of that definition
+        stating the whole amount as a quantity (possibly in another unit): two dependent folds"""
+        rng = self.rng
+        a, b = ("chain base %d" % n,), ("chain made %d" % n,)
+        q = gen_quantity(rng)
+        while q[0] != "qty":
+            q = gen_quantity(rng)
+        s1 = (None, False, ("leaf", q, a) if rng.random() < 0.7 else ("step", rng.choice(self.steps), [("leaf", q, a)]))
+        s2 = ([b], rng.random() < 0.3, ("step", rng.choice(self.steps), [("leaf", rng.choice([None, None, ("rem", "rest", " of the")]), a)]))
+        use = gen_quantity(rng, (q[1], q[2])) if rng.random() < 0.8 else gen_ref_amount(rng, (q[1], q[2]))
+        s3 = (None, False, ("step", rng.choice(self.steps), [("leaf", use, b), ("leaf", None, rng.choice(self.names))]))
+        self.defined.setdefault(svs_key(a), (q[1], q[2]))
+        self.defined.setdefault(svs_key(b), (q[1], q[2]))
+        return [s1, s2, s3]
+
     def desc(self, nblocks=None, nstmts=None):
         rng = self.rng
         self.defined = {}
-        return [[self.stmt() for _ in range(nstmts or rng.randint(1, 5))] for _ in range(nblocks or rng.choice([1, 1, 2, 3]))]
+        blocks = [[self.stmt() for _ in range(nstmts or rng.randint(1, 5))] for _ in range(nblocks or rng.choice([1, 1, 2, 3]))]
+        if rng.random() < 0.2:
+            ch = self.chain(rng.randint(0, 9))
+            bi = rng.randrange(len(blocks))
+            if rng.random() < 0.8:
+                blocks[bi].extend(ch)                      # all in one block: both folds happen
+            else:
+                blocks[bi].extend(ch[:2])                  # the use in a later block: the second fold must not happen
+                blocks.append(ch[2:])
+        return blocks
 
 
 # ------------------------------------------------------------------ the documented meaning (by name)
